@@ -22,7 +22,7 @@ ID = "C08"
 LEVEL = "exploration"
 RULE = (
     "Hypothesis RuleBasedStateMachine. Initial state: a generated file with an acyclic set of Decay blocks over real "
-    "particle names using Define'd parameters and ModelAlias'd models, plus CopyDecay and CDecay statements (the complete "
+    "particle names using Define'd parameters, ModelAlias'd models and (1 in 3) user-registered models, plus CopyDecay and CDecay statements (the complete "
     "table set incl. copies/conjugates is kept acyclic); one long-lived parser and the snapshot of a separate fresh instance. "
     "Rules (<=30 steps): list_decay_modes, print_decay_modes with drawn options, build_decay_chains with drawn stable sets, "
     "expand_decay_modes, every dict_*/list_*/get_* query, global_photos_flag, repr, list_decay_mother_names, decay-mode "
@@ -81,6 +81,14 @@ def c08_file(draw):
         stmts.append(draw(G.inert_statement(stable, kinds=("pythia", "jetset", "ls", "lspw", "photos", "particle"))))
     stmts = list(draw(st.permutations(stmts)))
     f = {"stmts": stmts, "layout": [], "crlf": False, "end": False}
+    # optionally a user-registered model (registered before the first parse) is used by some lines
+    if draw(st.sampled_from((False, False, True))):
+        f["extra_models"] = ["USERMODEL", "PHSP-X"]
+        for s_ in stmts:
+            if s_["k"] == "decay":
+                for ln in s_["lines"]:
+                    if not ln["alias"] and draw(st.sampled_from((False, True))):
+                        ln["model"] = draw(st.sampled_from(f["extra_models"]))
     # keep the complete table set (copies and conjugates included) acyclic
     if not acyclic(f):
         f["stmts"] = [s for s in stmts if s["k"] != "cdecay"]
@@ -150,7 +158,7 @@ class State:
         self.exp = R.all_tables(f)
         with warnings.catch_warnings():
             warnings.simplefilter("ignore")
-            fresh_p = make_parser(self.text, ID)
+            fresh_p = make_parser(self.text, ID, extra_models=tuple(f.get("extra_models", ())))
             self.mothers = [m for m, _, _ in self.exp]
             tabs = {}
             for m, _, ls in self.exp:
@@ -158,7 +166,7 @@ class State:
             # chain building / expansion only where the independently computed unfolding is small
             self.safe = [m for m in tabs if R.count_nodes(tabs, m) <= 400 and R.count_paths(tabs, m) <= 200]
             self.fresh = snapshot(fresh_p, ID, chain_mothers=self.safe, expand_mothers=self.safe)
-            self.p = make_parser(self.text, ID)
+            self.p = make_parser(self.text, ID, extra_models=tuple(f.get("extra_models", ())))
         self.names = sorted({d for _, _, ls in self.exp for ln in ls for d in ln["fs"]} | set(self.mothers))
         self.history = []
         self.check_structure()
@@ -338,6 +346,8 @@ def make_machine(rec, shrink_budget_s=40.0):
                     classes.append("file-has-copy")
                 if any(o == "conj" for _, o, _ in st_.exp):
                     classes.append("file-has-conjugate")
+                if st_.f.get("extra_models"):
+                    classes.append("file-uses-registered-models")
                 rec.case(st_.case(), st_.nontrivial(), classes, sample=lambda: {"text": st_.text, "steps": st_.history})
 
     return Machine
